@@ -59,6 +59,8 @@ Lemma has_visit_lit x k : has x k -> has (visit_lit x) k.
 Proof. apply has_info, info_visit_lit. Qed.
 Lemma has_visit_e e x k : has x k -> has (visit_e e x) k.
 Proof. apply has_info, info_visit_e. Qed.
+Lemma has_visit_oe o x k : has x k -> has (visit_oe o x) k.
+Proof. destruct o; cbn [visit_oe]; [apply has_visit_e | exact (fun H => H)]. Qed.
 Lemma has_visit_cond c x k : has x k -> has (visit_cond c x) k.
 Proof. apply has_info, info_visit_cond. Qed.
 Lemma has_visit_test t x k : has x k -> has (visit_test t x) k.
@@ -387,9 +389,9 @@ Proof.
   - intros p b [Gb Cb] c.
     apply (cov_wrap (SDoWhile p b c) (visit_do_while fx p c (pos b) (an fx b)) (qkeys b));
       [reflexivity | apply grows_do_while; exact Gb | apply covers_do_while; exact Cb].
-  - intros p c b [Gb Cb].
-    apply (cov_wrap (SFor p c b) (visit_for fx p c (pos b) (an fx b)) (qkeys b));
-      [reflexivity | apply grows_for; exact Gb | apply covers_for; exact Cb].
+  - intros p i c u b [Gb Cb].
+    apply (cov_wrap (SFor p i c u b) (fun x => visit_for fx p c (pos b) (an fx b) (visit_oe u (visit_oe i x))) (qkeys b));
+      [reflexivity | intros x k Hk; apply grows_for; [exact Gb | apply has_visit_oe, has_visit_oe; exact Hk] | intros x k Hk; apply (covers_for p c (pos b) _ _ Cb); exact Hk].
   - intros p b [Gb Cb].
     apply (cov_wrap (SForIn p b) (visit_for_in fx (pos b) (an fx b)) (qkeys b));
       [reflexivity | apply grows_for_in; exact Gb | apply covers_for_in; exact Cb].
@@ -471,8 +473,7 @@ Proof.
   - intros t p c a b _ IH. right. apply in_or_app. right. exact IH.
   - intros t s pre b post Hs _ IH.
     destruct s; cbn [loop_shape] in Hs; try discriminate; try (injection Hs as _ <- _; cbn [qkeys]; right; try exact IH).
-    + destruct c; injection Hs as _ <- _; right; exact IH.
-    + apply in_or_app. right. exact IH.
+    apply in_or_app. right. exact IH.
   - intros t p cs _ IH. right. exact IH.
   - intros t p l b _ IH. right. exact IH.
   - intros t p bp blk h hb f fb _ IH. right. right. apply in_or_app. left. exact IH.
@@ -501,7 +502,7 @@ Proof.
     destruct H as [H | H]; [left; apply IHa | right; apply IHb]; exact H.
   - intros p c b IHb g H. right. apply IHb. exact H.
   - intros p b IHb c g H. right. apply IHb. exact H.
-  - intros p c b IHb g H. right. apply IHb. exact H.
+  - intros p i c u b IHb g H. right. apply IHb. exact H.
   - intros p b IHb g H. right. apply IHb. exact H.
   - intros p b IHb g H. right. apply IHb. exact H.
   - intros p gt fp pb hb IHh b IHb g H. right. cbn [getters] in H. apply in_app_or in H. apply in_or_app. destruct H as [H | H].
